@@ -14,12 +14,12 @@ VERBS = {"havespace": "HAVESPACE", "putscript": "PUTSCRIPT", "deletescript": "DE
 
 
 def values(r, n):
-    out = ["", "plain", '"', "\\", '\\"', "{5}", "{5+}", "a\r\nLOGOUT", "nul\0", 'x" "y', "é€😀", " lead", "trail ", "{0}", "\\\\", '""']
+    out = ["", "plain", "2024", "0", "007", "12 34", "1e3", "١٢٣", '"', "\\", '\\"', "{5}", "{5+}", "a\r\nLOGOUT", "nul\0", 'x" "y', "é€😀", " lead", "trail ", "{0}", "\\\\", '""']
     # values that are the wire encodings of other values (a name equal to the literal / quoted form of a body used elsewhere
     # in the same process): encodings must not be confused with the things they encode, whatever was sent before
     for v in ["", "abc", "keep;\r\n", 'a"b', "é"]:
         out += ["{%d+}\r\n%s" % (len(v.encode("utf-8")), v), "{%d}\r\n%s" % (len(v.encode("utf-8")), v), '"%s"' % v.replace("\\", "\\\\").replace('"', '\\"'), v]
-    n += 20
+    n += 26
     # long values around the usual size limits, with a character that needs escaping at either end
     for L in [255, 256, 1022, 1023, 1024, 1025, 1026, 2048, 4095, 4097, 8192, 65535, 70000]:
         out += ["x" * (L - 1) + r.choice(['"', "\\"]), r.choice(['"', "\\"]) + "y" * (L - 1), "z" * L]
